@@ -48,6 +48,16 @@ Definition restricted : list (list string) := [
   ["contextlib"; "chdir"]; ["asyncio"; "run"]; ["random"; "randbytes"]; ["random"; "binomialvariate"]
 ].
 
+(* Method / attribute names that were removed from numpy arrays, h5py objects or builtin
+   types somewhere inside the declared range; flagged when used on a value of statically
+   unknown type and not defined by pyrex itself (heuristic, name-based). *)
+Definition removed_methods : list string := [
+  "tostring"; "newbyteorder"; "itemset"; "ptp"; "asscalar"; "tostring_rgb";
+  "has_key"; "iteritems"; "itervalues"; "iterkeys"; "getargspec"; "getchildren";
+  "isAlive"; "fromstring"; "encodestring"; "decodestring"; "clock"
+].
+Definition method_ok (m : string) : bool := negb (existsb (String.eqb m) removed_methods).
+
 Fixpoint is_prefix (p c : list string) : bool :=
   match p, c with
   | [], _ => true
